@@ -6,7 +6,9 @@ import "github.com/tink-crypto/tink-go/v2/internal/verifrt"
 // further bytes of capacity follow it. All of it (including the spare capacity) is
 // symbolic and protected: any store into it is a violation of C19.
 func Buf(name string, n int, label string) []byte {
-	spare := verifrt.Choice(name+".spare", 3)
+	// spare capacities: none, a byte or two, and more than a cipher block (an append of
+	// block padding stays in place only if that much room is available)
+	spare := [...]int{0, 1, 2, 17, 40}[verifrt.Choice(name+".spare", 5)]
 	b := verifrt.BytesCap(name, n, n+spare)
 	verifrt.Protect(b, label)
 	return b
